@@ -6,6 +6,10 @@
  *                  libisal.so is made read-only; 16 threads with independent contexts and shared read-only inputs run the
  *                  scenarios; a write to library data faults, results must equal the serial ones.
  *  mode "threads": same multi-threaded workload without page protection (ThreadSanitizer build).
+ *  mode "taint"  : (run under valgrind memcheck) the context, level buffer, output and scratch buffers are marked UNDEFINED before
+ *                  every scenario; memcheck's bit-precise definedness tracking follows them through the C and assembly code (AVX2
+ *                  level: valgrind's synthetic CPUID has no AVX-512) and the digest of everything observable must come out
+ *                  fully defined - i.e. no bit of any result was computed from prior contents of caller memory.
  *  mode "cold"   : racing first calls: fresh child process per entry point, N threads behind a barrier. */
 #define _GNU_SOURCE
 #include "v.h"
@@ -16,6 +20,7 @@
 #include <link.h>
 #include <sys/wait.h>
 #include <zlib.h>
+#include <valgrind/memcheck.h>
 #include "igzip_lib.h"
 #include "crc.h"
 #include "crc64.h"
@@ -184,6 +189,8 @@ static void mode_prefill(void)
 {
 	arena_t a = new_arena(), b = new_arena();
 	long reps = vopt.thorough ? 12 : 2;
+	{ const char *lv = strchr(vopt.mode, ':');   /* "prefill:<cpu level>": the dispatcher outcome of a lesser CPU (the _01/_02/_04 codec kernels, sse/avx/avx2 kernels) */
+	  if (lv && strcmp(lv + 1, "native")) { const cpucfg *c = cpusim_find(lv + 1); if (!c) v_harness_fail("unknown cpu level %s", lv + 1); if (!cpusim_host_can(c)) { v_set("cpu_levels_skipped", lv + 1); v_stat("evaluations", 1); return; } cpusim_apply(c); v_set("prefill_cpu_levels", lv + 1); } else v_set("prefill_cpu_levels", "native"); }
 	for (long rep = 0; rep < reps; rep++) for (int sc = 0; sc < NSCEN; sc++) for (int v = 0; v < SC[sc].nvar; v++) {
 		long idx = (rep * NSCEN + sc) * 1000 + v; if (!v_mine(idx)) continue;
 		int vv = v + (int) (rep * 7);   /* later repetitions shift the variant parameters */
@@ -213,6 +220,28 @@ static void mode_prefill(void)
 	}
 	for (int sc = 0; sc < NSCEN; sc++) v_count("scenario_runs", SC[sc].name, st_scen[sc]);
 	v_stat("evaluations", st_runs);
+}
+/* ------------------------------------------------------------------ definedness (taint) tracking under valgrind memcheck */
+static void mode_taint(void)
+{
+	if (!RUNNING_ON_VALGRIND) v_harness_fail("mode taint must run under valgrind memcheck");
+	arena_t a = new_arena(); long runs = 0, undefined_bytes_marked = 0; int stride = vopt.thorough ? 1 : 4;
+	/* self-test of the monitor: a digest that does include an undefined byte must be reported as undefined */
+	{ uint8_t probe[64]; memset(probe, 1, sizeof probe); VALGRIND_MAKE_MEM_UNDEFINED(probe + 17, 1); uint64_t d = H(7, probe, sizeof probe); if (!VALGRIND_CHECK_VALUE_IS_DEFINED(d)) v_harness_fail("memcheck did not flag a digest over an undefined byte"); v_stat("monitor_selftest_flagged", 1); }
+	for (int sc = 0; sc < NSCEN; sc++) for (int v = 0; v < SC[sc].nvar; v++) {
+		long idx = sc * 1000 + v; if ((v + sc + vopt.seed) % stride || !v_mine(idx)) continue;
+		a.shift = 64 * (idx % 23); prefill(&a, 3, vopt.seed * 77 + idx);
+		{ uint8_t *bufs[5] = { a.ctx, a.lvl, a.out, a.aux, a.aux2 }; size_t sz[5] = { CTXSZ, LVLSZ, OUTSZ, AUXSZ, AUXSZ }; for (int i = 0; i < 5; i++) { VALGRIND_MAKE_MEM_UNDEFINED(bufs[i], sz[i]); undefined_bytes_marked += sz[i]; } }
+		v_setcase(idx, "scenario %s variant %d, all caller-provided memory (context, level_buf, output, scratch) marked undefined for memcheck", SC[sc].name, v);
+		uint64_t d;
+		if (V_TRY(600)) { d = SC[sc].fn(&a, v); V_END; } else { v_describe_fault(); char key[200]; snprintf(key, sizeof key, "fault:%s:%s", SC[sc].name, v_fault_sym()); v_viol(key, "%s", v_fault_txt); continue; }
+		runs++; st_scen[sc]++;
+		if (VALGRIND_CHECK_VALUE_IS_DEFINED(d)) { char key[200]; snprintf(key, sizeof key, "depends-on-undefined-memory:%s", SC[sc].name); VALGRIND_MAKE_MEM_DEFINED(&d, 8); v_viol(key, "memcheck: some bit of the result digest (%016llx) was computed from memory the caller never initialised", (unsigned long long) d); }
+		v_distinct(v_hash64(&idx, 8, 77));
+		if (v_nsamples < 2) v_sample("%s -> digest fully defined under memcheck with %zu bytes of caller memory undefined", v_case, (size_t) (CTXSZ + LVLSZ + OUTSZ + 2 * AUXSZ));
+	}
+	for (int sc = 0; sc < NSCEN; sc++) v_count("taint_scenario_runs", SC[sc].name, st_scen[sc]);
+	v_stat("evaluations", runs); v_stat("taint_runs", runs); v_stat("bytes_marked_undefined", undefined_bytes_marked);
 }
 /* ------------------------------------------------------------------ threads / read-only library pages */
 static uint64_t serial_digest[16][NSC][200]; static volatile int thr_mismatch; static int have_baseline;
@@ -353,6 +382,7 @@ int main(int argc, char **argv)
 		make_inputs(); mode_cold(); return v_finish();
 	}
 	make_inputs();
-	if (!strncmp(vopt.mode, "ro", 2)) mode_threads(1); else if (!strcmp(vopt.mode, "threads")) mode_threads(0); else mode_prefill();
+	if (!strncmp(vopt.mode, "prefill:", 8) && V_NDISPATCHED > 0) cpusim_init();
+	if (!strcmp(vopt.mode, "taint")) mode_taint(); else if (!strncmp(vopt.mode, "ro", 2)) mode_threads(1); else if (!strcmp(vopt.mode, "threads")) mode_threads(0); else mode_prefill();
 	return v_finish();
 }
